@@ -97,4 +97,6 @@ class TransitionFunction:
 
     def to_dict(self):
         """Get the dictionary representation of the transitions"""
-        return self._transitions
+        # A copy: what is done to the result must not change the function
+        return {key: set(value)
+                for key, value in self._transitions.items()}
